@@ -51,9 +51,10 @@ SUBSTITUTIONS = [
     "buffers become object buffers of exact constants; pi, sqrt, exp, log, abs, allclose, isclose, "
     "linalg.norm act on symbolic reals)",
     "scipy.special.factorial2 / factorial / comb / perm -> exact integer versions (assumed contract "
-    "on the dependency: they compute n!!, n!, C(n,k), P(n,k))",
+    "on the dependency: they compute n!!, n!, C(n,k), P(n,k); checked on the reachable argument range by the bounded "
+    "harness contracts.numeric:DependencyContracts under C01, C05, C10)",
     "scipy.special.eval_hermite -> exact physicists' Hermite polynomial by recurrence (assumed "
-    "contract on the dependency)",
+    "contract on the dependency; bounded check as above)",
 ]
 
 _state = {"mode": None, "saved": {}}
